@@ -50,6 +50,9 @@ class Atom:
     def isdigit(self):
         return False
 
+    def isdecimal(self):
+        return False
+
     def strip(self, *a):
         return self
 
@@ -63,6 +66,9 @@ class NumStr:
         self.v = v
 
     def isdigit(self):
+        return True
+
+    def isdecimal(self):
         return True
 
     def replace(self, old, new, *a):
@@ -94,6 +100,9 @@ class CommaNumStr:
         self.v = v
 
     def isdigit(self):
+        return False
+
+    def isdecimal(self):
         return False
 
     def replace(self, old, new, *a):
